@@ -559,6 +559,9 @@ func init() {
 	reg("fmt.Fprintln", func(in *Interp, g *Goroutine, fn *ssa.Function, args []Value) (Value, *tailCall) {
 		return in.writeTo(g, args[0], in.sprint(g, args[1].(SliceV), true)), nil
 	})
+	reg("fmt.Sscan", func(in *Interp, g *Goroutine, fn *ssa.Function, args []Value) (Value, *tailCall) {
+		return in.sscan(g, args[0].(*StrV), in.argsOf(args[1].(SliceV))), nil
+	})
 	for _, n := range []string{"fmt.Printf", "fmt.Println", "fmt.Print"} {
 		reg(n, func(in *Interp, g *Goroutine, fn *ssa.Function, args []Value) (Value, *tailCall) {
 			return TupleV{in.ci(0), IfaceV{}}, nil
@@ -983,4 +986,142 @@ func (in *Interp) parseIntModel(fn *ssa.Function, args []Value, signed bool) (Va
 		n = tt.Neg(n)
 	}
 	return zeroRes(n, IfaceV{})
+}
+
+// sscan models fmt.Sscan for space-separated decimal integers and strings.
+func (in *Interp) sscan(g *Goroutine, s *StrV, ptrs []Value) Value {
+	tt := in.tt
+	ts := s.Terms(tt)
+	isSpace := func(c *Term) bool {
+		sp := tt.Or(tt.Or(tt.Eq(c, tt.Const(8, ' ')), tt.Eq(c, tt.Const(8, '\n'))), tt.Or(tt.Eq(c, tt.Const(8, '\t')), tt.Eq(c, tt.Const(8, '\r'))))
+		return in.concBool(sp, "Sscan space")
+	}
+	pos := 0
+	done := 0
+	fail := func(msg string) Value { return TupleV{in.ci(done), in.makeError(msg)} }
+	spkg := in.prog.ImportedPackage("strconv")
+	for _, pv := range ptrs {
+		for pos < len(ts) && isSpace(ts[pos]) {
+			pos++
+		}
+		if pos >= len(ts) {
+			return fail("unexpected EOF")
+		}
+		start := pos
+		for pos < len(ts) && !isSpace(ts[pos]) {
+			pos++
+		}
+		tok := strFromTerms(ts[start:pos])
+		iv, ok := pv.(IfaceV)
+		if !ok || iv.typ == nil {
+			return fail("can't scan type")
+		}
+		pt, ok := iv.typ.Underlying().(*types.Pointer)
+		if !ok {
+			return fail("can't scan type")
+		}
+		et := pt.Elem()
+		w, signed, isInt := widthOf(et)
+		switch {
+		case isInt && w > 0:
+			if tok.Len() > 1 {
+				first := tok.At(tt, 0)
+				lead := tt.Or(tt.Eq(first, tt.Const(8, '0')), tt.Or(tt.Eq(first, tt.Const(8, '+')), tt.Eq(first, tt.Const(8, '-'))))
+				if in.concBool(lead, "Sscan base prefix") {
+					if tok.isSym {
+						panic(unsupported("fmt.Sscan of a symbolic token with sign or leading zero (base prefixes not modelled)"))
+					}
+				}
+			}
+			fname := "ParseUint"
+			if signed {
+				fname = "ParseInt"
+			}
+			base := 10
+			if !tok.isSym {
+				base = 0 // like fmt's %v: accepts 0x, 0o, 0b prefixes
+			}
+			r := in.callSync(g, &FuncV{fn: spkg.Func(fname)}, []Value{tok, in.ci(base), in.ci(int(w))}).(TupleV)
+			if e, _ := r[1].(IfaceV); e.typ != nil {
+				return fail("expected integer")
+			}
+			v := r[0].(*Term)
+			in.store(iv.val.(PtrV), et, tt.Extract(v, w))
+		case isString(et):
+			in.store(iv.val.(PtrV), et, tok)
+		default:
+			panic(unsupported("fmt.Sscan into " + et.String()))
+		}
+		done++
+	}
+	return TupleV{in.ci(done), IfaceV{}}
+}
+
+func isString(t types.Type) bool {
+	b, ok := t.Underlying().(*types.Basic)
+	return ok && b.Kind() == types.String
+}
+
+// ---------- sync.Map model (backed by a MapV in the first cell) ----------
+
+func (in *Interp) syncMapOf(p PtrV) *MapV {
+	m, _ := p.obj.cells[p.off].(*MapV)
+	if m == nil {
+		in.gseq++
+		m = &MapV{id: in.gseq}
+		in.setCell(p.obj, p.off, m)
+	}
+	return m
+}
+
+func init() {
+	reg("(*sync.Map).Load", func(in *Interp, g *Goroutine, fn *ssa.Function, args []Value) (Value, *tailCall) {
+		v, ok := in.mapGet(in.syncMapOf(args[0].(PtrV)), args[1])
+		if !ok {
+			return TupleV{IfaceV{}, in.tt.False}, nil
+		}
+		return TupleV{v, in.tt.True}, nil
+	})
+	reg("(*sync.Map).Store", func(in *Interp, g *Goroutine, fn *ssa.Function, args []Value) (Value, *tailCall) {
+		in.mapSet(in.syncMapOf(args[0].(PtrV)), args[1], args[2])
+		return nil, nil
+	})
+	reg("(*sync.Map).LoadOrStore", func(in *Interp, g *Goroutine, fn *ssa.Function, args []Value) (Value, *tailCall) {
+		m := in.syncMapOf(args[0].(PtrV))
+		if v, ok := in.mapGet(m, args[1]); ok {
+			return TupleV{v, in.tt.True}, nil
+		}
+		in.mapSet(m, args[1], args[2])
+		return TupleV{args[2], in.tt.False}, nil
+	})
+	reg("(*sync.Map).LoadAndDelete", func(in *Interp, g *Goroutine, fn *ssa.Function, args []Value) (Value, *tailCall) {
+		m := in.syncMapOf(args[0].(PtrV))
+		v, ok := in.mapGet(m, args[1])
+		if !ok {
+			return TupleV{IfaceV{}, in.tt.False}, nil
+		}
+		in.mapDelete(m, args[1])
+		return TupleV{v, in.tt.True}, nil
+	})
+	reg("(*sync.Map).Delete", func(in *Interp, g *Goroutine, fn *ssa.Function, args []Value) (Value, *tailCall) {
+		in.mapDelete(in.syncMapOf(args[0].(PtrV)), args[1])
+		return nil, nil
+	})
+	reg("(*sync.Map).Clear", func(in *Interp, g *Goroutine, fn *ssa.Function, args []Value) (Value, *tailCall) {
+		m := in.syncMapOf(args[0].(PtrV))
+		in.journalMap(m)
+		m.entries = nil
+		return nil, nil
+	})
+	reg("(*sync.Map).Range", func(in *Interp, g *Goroutine, fn *ssa.Function, args []Value) (Value, *tailCall) {
+		m := in.syncMapOf(args[0].(PtrV))
+		f := args[1].(*FuncV)
+		for _, e := range append([]mapEntry(nil), m.entries...) {
+			r := in.callSync(g, f, []Value{e.key, e.val})
+			if !in.concBool(r, "sync.Map.Range callback") {
+				break
+			}
+		}
+		return nil, nil
+	})
 }
